@@ -462,6 +462,11 @@ class PrepareAst:
                     result.assigned_value, _type_qualifier.TypeQualifier
                 ) or is_primitive(result.assigned_value):
                     assigned = result.assigned_value
+
+                    # trial assignment to check whether the types are compatible
+                    _type_qualifier.TypeQualifier.decay(result.new_obj)._assign(
+                        _type_qualifier.TypeQualifier.decay(assigned)
+                    )
                 elif isinstance(result.assigned_value, (list, tuple)) and isinstance(
                     _type_qualifier.TypeQualifier.decay(result.new_obj), Array
                 ):
